@@ -262,6 +262,10 @@ class ResHarness:
         e_flag = env.lookup_env("was_invoked") if env is not None else None
         if e_flag is None:
             raise Unsupported("do_finally: no `was_invoked` cell (drift)")
+        from .cells import require_known
+        for h in (on_next, on_error, on_completed):
+            if isinstance(h, Closure):
+                require_known(h, {"was_invoked"}, "do_finally")
         # the cell is a one-element list or a plain closure variable (`nonlocal`)
         as_list = isinstance(e_flag.vars["was_invoked"], ListObj) and not e_flag.vars["was_invoked"].symbolic and len(e_flag.vars["was_invoked"].items) == 1
 
